@@ -22,7 +22,7 @@ int main(int argc, char** argv) {
   if (argc >= 10 && !strcmp(argv[1], "--case")) {
     Case c{atoi(argv[2]), atoi(argv[3]), atoi(argv[4]), atoi(argv[5]), atoi(argv[6]), atoi(argv[7]), atoi(argv[8]), atoi(argv[9])};
     Result r = dispatch(c);
-    bool bad = (r.r == -1 && !r.untouched) || (c.stage == ST_NONE && r.r < 0 && !(c.wrapper != 0 && false));
+    bool bad = (r.r == -1 && !r.untouched) || (c.stage == ST_NONE && r.r < 0 && c.k1 <= 2 && c.k2 <= 3);
     print_case(c, r, bad ? (r.r == -1 ? "state-modified-on-failure" : "fault-free-call-failed") : "ok");
     return 0;
   }
@@ -32,7 +32,7 @@ int main(int argc, char** argv) {
   for (int w = 0; w < 4; ++w) for (int h = 0; h < 4; ++h) for (int st = 0; st < ST_COUNT; ++st) for (int m = 0; m < 3; ++m) {
     if (st == ST_NONE && m != 0) continue;
     if (st >= ST_INTERNAL_ENERGY && m == M_RETURN_FAILURE) continue;   // those callbacks return nothing: they can only fail by throwing
-    for (int k0 = 0; k0 < nk0; ++k0) for (int k1 = 0; k1 < (w == 0 ? 1 : 3); ++k1) for (int k2 = 0; k2 < (w == 0 ? 1 : 4); ++k2) for (int red = 0; red < 2; ++red) {
+    for (int k0 = 0; k0 < nk0; ++k0) for (int k1 = 0; k1 < (w == 0 ? 1 : 4); ++k1) for (int k2 = 0; k2 < (w == 0 ? 1 : 5); ++k2) for (int red = 0; red < 2; ++red) {   // k1 == 3 / k2 == 4: invalid stress measure / tangent operator requested by the caller
       Case c{w, h, st, m, k0, k1, k2, red};
       long before = g_stage_hits[st];
       Result r = dispatch(c);
@@ -41,7 +41,7 @@ int main(int argc, char** argv) {
       if (st != ST_NONE) { ++faulted_cases; if (!reached) ++fault_not_reached; }
       if (r.r == -1) { ++failed_calls; by_stage_failed[st]++; }
       if (r.r == -1 && !r.untouched) { ++violations; print_case(c, r, "state-modified-on-failure"); }
-      else if (st == ST_NONE && r.r < 0) { ++sanity_fail; print_case(c, r, "fault-free-call-failed"); }
+      else if (st == ST_NONE && r.r < 0 && k1 <= 2 && k2 <= 3) { ++sanity_fail; print_case(c, r, "fault-free-call-failed"); }
       else if ((cases % 4001) == 0 && samples < 8) { ++samples; print_case(c, r, "sample"); }
     }
   }
